@@ -71,12 +71,20 @@ func (pm *PoolManager) ConfigurePool(name string, id uint32, cfg *cgnat.Pool) er
 	blocksPerAddr := usablePorts / uint32(blockSize)
 
 	var addresses []*outsideAddressState
+	seen := make(map[string]bool)
 	for _, addrStr := range cfg.OutsideAddresses {
 		ips, err := expandCIDR(addrStr)
 		if err != nil {
 			return fmt.Errorf("pool %s: invalid outside address %s: %w", name, addrStr, err)
 		}
 		for _, ip := range ips {
+			// An address listed twice (a literal inside a listed prefix,
+			// overlapping prefixes) must not get two allocators: its port
+			// blocks would be handed out twice.
+			if seen[ip.String()] {
+				continue
+			}
+			seen[ip.String()] = true
 			bitmapWords := (blocksPerAddr + 63) / 64
 			addresses = append(addresses, &outsideAddressState{
 				IP:            ip,
